@@ -19,6 +19,8 @@ pub mod c13;
 pub mod c14;
 pub mod c15;
 pub mod c16;
+pub mod c17;
+pub mod c18;
 pub mod iofault;
 
 pub fn get(id: &str) -> Option<Box<dyn Monitor>> {
@@ -39,6 +41,8 @@ pub fn get(id: &str) -> Option<Box<dyn Monitor>> {
         "C14" => Some(Box::new(c14::C14)),
         "C15" => Some(Box::new(c15::C15)),
         "C16" => Some(Box::new(c16::C16)),
+        "C17" => Some(Box::new(c17::C17)),
+        "C18" => Some(Box::new(c18::C18)),
         _ => None,
     }
 }
